@@ -723,7 +723,7 @@ def explore(ctx, n_pure, n_wrap, n_live, stream='c12', with_corpus=True):
 def run(ctx):
     build = leanbuild.ensure(PROPERTY, THEOREMS, thorough=ctx.thorough, extractors=['Reply'])
     if ctx.thorough:
-        n_pure, n_wrap, n_live = 120000, 60000, 6000
+        n_pure, n_wrap, n_live = 360000, 180000, 15000
     else:
         n_pure, n_wrap, n_live = 20000, 10000, 700
     I, B, LB = explore(ctx, n_pure, n_wrap, n_live)
